@@ -12,6 +12,15 @@ DelSnapOf(a, i) == [t |-> "delsnap", who |-> <<a, i>>]
 Read == [t |-> "read", data |-> TRUE]
 Count == [t |-> "read", data |-> FALSE]
 
+A1 == {"c1"}
+Role_C1 == [a \in A1 |-> "committer"]
+Idx_1 == [a \in A1 |-> 1]
+Sep_1 == [a \in A1 |-> a]
+Prog_1AppThenApp == [a \in A1 |-> <<App(1), App(2)>>]
+Prog_1AppExplicit == [a \in A1 |-> <<[t |-> "append", add |-> <<1>>, style |-> "explicit"], [t |-> "append", add |-> <<2>>, style |-> "explicit"]>>]
+Prog_1DelThenApp == [a \in A1 |-> <<Del({961}), App(2)>>]
+Prog_1ExpThenApp == [a \in A1 |-> <<Exp(2), App(2)>>]
+Prog_1DsThenApp == [a \in A1 |-> <<DelSnapInit(2), App(2)>>]
 A2 == {"c1", "c2"}
 A3 == {"c1", "c2", "c3"}
 Role_C2 == [a \in A2 |-> "committer"]
